@@ -7,6 +7,8 @@ RS_1 == {<<1>>, <<2>>}
 RS_1234 == {<<1>>, <<1, 2>>, <<2, 1, 3>>, <<1, 2, 3, 4>>}
 ImageOps == {"Apply", "ApplyO", "Return", "When", "Cancel", "Reset"}
 StubOps == {"Apply", "Return", "Returns", "When", "Cancel", "Reset", "Call"}
+RS_EXT == {<<1, 2>>, <<3>>}
+ExtOps == {"Returns", "Call"}      \* sequences extended between calls, also after calls beyond the end
 SeqOps == {"Return", "Returns", "When", "Call", "Reset"}
 LogNames == {"OpenDebug", "CloseDebug", "OpenTrace", "CloseTrace"}
 LogOps == AllOps \cup LogNames
